@@ -18,7 +18,7 @@ def Unvalidated (k : String) : Prop := labelRegex.lookup k = none ∧ labelRange
 
 def ItemOk (k : String) : Item → Prop
   | .str s => InDomain k s
-  | .other => Unvalidated k
+  | .other => False              -- a list element that is not a str is never stored (the assertion in _set_fields)
 
 def ValOk (k : String) : Val → Prop
   | .none => True
@@ -129,7 +129,8 @@ theorem accepts_full {r : Re} {s : List Char} : accepts .full r s = true ↔ r.L
 
 /-- successful checks put the value inside the documented domain (call sites anchored with fullmatch) -/
 theorem checks_valOk {k : String} {v : Val} (hl : labelAnchorList = .full) (hs : labelAnchorScalar = .full)
-    (h1 : checkRegex k v = .ok ()) (h2 : checkRange k v = .ok ()) (hn : v ≠ .none) (ho : v ≠ .other) : ValOk k v := by
+    (h1 : checkRegex k v = .ok ()) (h2 : checkRange k v = .ok ()) (hn : v ≠ .none) (ho : v ≠ .other)
+    (hno : v.hasOther = false) : ValOk k v := by
   cases v with
   | none => exact absurd rfl hn
   | other => exact absurd rfl ho
@@ -169,7 +170,11 @@ theorem checks_valOk {k : String} {v : Val} (hl : labelAnchorList = .full) (hs :
         · rw [hc] at hc'; cases hc'; exact hv
       | none =>
         cases i with
-        | other => exact ⟨hr, hc⟩
+        | other =>
+          exfalso
+          have : (Val.list xs).hasOther = true := by
+            simp only [Val.hasOther, List.any_eq_true]; exact ⟨.other, hi, by decide⟩
+          rw [hno] at this; exact Bool.false_ne_true this
         | str s =>
           refine ⟨fun r' hr' => ?_, fun cs' hc' => ?_⟩
           · rw [hr] at hr'; cases hr'
@@ -205,7 +210,7 @@ theorem checks_of_valOk {k : String} {v : Val} (hl : labelAnchorList = .full) (h
         intro i hi
         have h := hv i hi
         cases i with
-        | other => exact absurd h.1 (by rw [hr]; simp)
+        | other => exact h.elim
         | str s => exact ⟨s, rfl, by rw [hl]; exact accepts_full.mpr (h.1 r hr)⟩
     · simp only [checkRange]
       split
@@ -215,8 +220,23 @@ theorem checks_of_valOk {k : String} {v : Val} (hl : labelAnchorList = .full) (h
         intro i hi
         have h := hv i hi
         cases i with
-        | other => exact absurd h.2 (by rw [hc]; simp)
+        | other => exact h.elim
         | str s => exact ⟨s, rfl, h.2 cs hc⟩
+
+theorem valOk_noOther {k : String} {v : Val} (hv : ValOk k v) : v.hasOther = false := by
+  cases v with
+  | none => rfl
+  | other => rfl
+  | str s => rfl
+  | list xs =>
+    simp only [Val.hasOther]
+    cases h : xs.any (fun i => i == Item.other) with
+    | false => rfl
+    | true =>
+      obtain ⟨i, hi, hio⟩ := List.any_eq_true.mp h
+      have : i = Item.other := by simpa using hio
+      subst this
+      exact (hv _ hi).elim
 
 theorem setField_sound {fg : Bool} {o o' : LObj} {k : String} {v : Val}
     (hl : labelAnchorList = .full) (hs : labelAnchorScalar = .full)
@@ -226,7 +246,7 @@ theorem setField_sound {fg : Bool} {o o' : LObj} {k : String} {v : Val}
   | none => simp [throw, throwThe, MonadExceptOf.throw] at h
   | other => simp [throw, throwThe, MonadExceptOf.throw] at h
   | str s =>
-    simp only at h
+    simp only [Val.hasOther, Bool.false_eq_true, if_false] at h
     split at h
     · cases h1 : checkRegex k (.str s) with
       | error e => simp [h1] at h
@@ -236,25 +256,29 @@ theorem setField_sound {fg : Bool} {o o' : LObj} {k : String} {v : Val}
         | ok u' =>
           simp only [h1, h2, pure, Except.pure, Except.ok.injEq] at h
           subst h
-          exact valid_setKey ho (checks_valOk hl hs h1 h2 (by simp) (by simp))
+          exact valid_setKey ho (checks_valOk hl hs h1 h2 (by simp) (by simp) rfl)
     · split at h
       · simp only [pure, Except.pure, Except.ok.injEq] at h; subst h; exact ho
       · simp [throw, throwThe, MonadExceptOf.throw] at h
   | list xs =>
     simp only at h
-    split at h
-    · cases h1 : checkRegex k (.list xs) with
-      | error e => simp [h1] at h
-      | ok u =>
-        cases h2 : checkRange k (.list xs) with
-        | error e => simp [h1, h2] at h
-        | ok u' =>
-          simp only [h1, h2, pure, Except.pure, Except.ok.injEq] at h
-          subst h
-          exact valid_setKey ho (checks_valOk hl hs h1 h2 (by simp) (by simp))
-    · split at h
-      · simp only [pure, Except.pure, Except.ok.injEq] at h; subst h; exact ho
-      · simp [throw, throwThe, MonadExceptOf.throw] at h
+    cases hno : (Val.list xs).hasOther with
+    | true => simp [hno, throw, throwThe, MonadExceptOf.throw] at h
+    | false =>
+      simp only [hno, Bool.false_eq_true, if_false] at h
+      split at h
+      · cases h1 : checkRegex k (.list xs) with
+        | error e => simp [h1] at h
+        | ok u =>
+          cases h2 : checkRange k (.list xs) with
+          | error e => simp [h1, h2] at h
+          | ok u' =>
+            simp only [h1, h2, pure, Except.pure, Except.ok.injEq] at h
+            subst h
+            exact valid_setKey ho (checks_valOk hl hs h1 h2 (by simp) (by simp) hno)
+      · split at h
+        · simp only [pure, Except.pure, Except.ok.injEq] at h; subst h; exact ho
+        · simp [throw, throwThe, MonadExceptOf.throw] at h
 
 theorem setFields_sound {fg : Bool} (hl : labelAnchorList = .full) (hs : labelAnchorScalar = .full) :
     ∀ {kw : List (String × Val)} {o o' : LObj}, setFields fg o kw = .ok o' → Valid o → Valid o' := by
@@ -279,12 +303,13 @@ theorem setField_complete {fg : Bool} {o : LObj} {k : String} {v : Val}
     (hk : labelFields.contains k = true) (hv : ValOk k v) (hn : v ≠ .none) :
     setField fg o k v = .ok (setKey k v o) := by
   obtain ⟨h1, h2⟩ := checks_of_valOk hl hs hv
+  have hno := valOk_noOther hv
   unfold setField
   cases v with
   | none => exact absurd rfl hn
   | other => exact absurd hv (by simp [ValOk])
-  | str s => simp only [hk, if_true, h1, h2]; rfl
-  | list xs => simp only [hk, if_true, h1, h2]; rfl
+  | str s => simp only [hno, Bool.false_eq_true, if_false, hk, if_true, h1, h2]; rfl
+  | list xs => simp only [hno, Bool.false_eq_true, if_false, hk, if_true, h1, h2]; rfl
 
 /-- a forgiving call over values that are all inside their domains cannot fail -/
 theorem setFields_total (hl : labelAnchorList = .full) (hs : labelAnchorScalar = .full) :
@@ -303,12 +328,13 @@ theorem setFields_total (hl : labelAnchorList = .full) (hs : labelAnchorScalar =
     · rw [setField_complete hl hs hk hv hn]
       exact ih _ ht
     · have : setField true o k v = .ok o := by
+        have hno := valOk_noOther hv
         unfold setField
         cases v with
         | none => exact absurd rfl hn
         | other => exact absurd hv (by simp [ValOk])
-        | str s => simp only [hk]; rfl
-        | list xs => simp only [hk]; rfl
+        | str s => simp only [hno, Bool.false_eq_true, if_false, hk]; rfl
+        | list xs => simp only [hno, Bool.false_eq_true, if_false, hk]; rfl
       rw [this]
       exact ih _ ht
 
